@@ -13,8 +13,10 @@ Disjoint2(E) == { s \in Double(E) : s[1][2] < s[2][1] }
 EdgesA == {0, 4, 8, 12, 16, 20, 24, 28}
 EdgesB == {3, 7, 10, 13, 17, 22}
 
-WinSets == Single(EdgesA) \cup Single(EdgesB) \cup Disjoint2({0, 4, 8, 13, 17, 24})
-WinSetsQ == Single({0, 4, 8, 12, 16, 24}) \cup Single({3, 10, 17}) \cup Disjoint2({0, 4, 10, 13, 20})
+(* two windows listed in DECREASING time order (the first pulse at d = 2 ends at t = 12)       *)
+Reversed2(E) == { <<s[2], s[1]>> : s \in Disjoint2(E) }
+WinSets == Reversed2({0, 4, 13, 20}) \cup Single(EdgesA) \cup Single(EdgesB) \cup Disjoint2({0, 4, 8, 13, 17, 24})
+WinSetsQ == Reversed2({0, 4, 13, 20}) \cup Single({0, 4, 8, 12, 16, 24}) \cup Single({3, 10, 17}) \cup Disjoint2({0, 4, 10, 13, 20})
 
 MC_Choppers  == { [d |-> d, win |-> w] : d \in {2, 4, 6}, w \in WinSets }
 MC_ChoppersQ == { [d |-> d, win |-> w] : d \in {2, 4, 6}, w \in WinSetsQ }
